@@ -254,9 +254,52 @@ def _sibling_spec(rng, sp):
     return S.set_at(sp, path, m), "%s -> %s at %s" % (n["k"], m["k"], "/".join(map(str, path)) or "$")
 
 
+def _ed_case(i, rng, tier):
+    """States built with the public ed() constructors from tuples or lists: equal to themselves, their copy(), their
+    pickle clone, their JSON reload and to the same state built from the other sequence type."""
+    from histogrammar.defs import Factory
+
+    kind = C.ED_KINDS[(i // 16) % len(C.ED_KINDS)]
+    sp = S.default_child(kind, rng, {"flavours": ("lambda",)})
+    stream = S.gen_stream(rng, sp, rng.randint(0, 6))
+    failures = []
+    counters = {"ed_built_cases": 1}
+    wit = {"tree": S.describe(sp), "spec": sp, "stream": C.stream_json(stream)}
+    h = C.fill_all(S.build(sp), stream)
+    for seq in (tuple, list):
+        try:
+            x = C.ed_variant(h, seq)
+            other = C.ed_variant(h, list if seq is tuple else tuple)
+        except Exception as e:  # noqa: BLE001
+            failures.append(C.fail(None, "%s.ed(...) with %ss raised %s: %s" % (kind, seq.__name__, type(e).__name__, str(e)[:160]), **wit))
+            continue
+        for nm, mk in (("itself", lambda: x), ("its copy()", lambda: x.copy()), ("its pickle clone", lambda: pickle.loads(pickle.dumps(x))), ("the same state built from the other sequence type", lambda: other)):
+            try:
+                y = mk()
+                e1, e2, n1 = (x == y), (y == x), (x != y)
+            except Exception as e:  # noqa: BLE001
+                failures.append(C.fail(None, "an ed()-built %s (%ss) compared with %s raised %s: %s" % (kind, seq.__name__, nm, type(e).__name__, str(e)[:160]), **wit))
+                continue
+            counters["ed_built_comparisons"] = counters.get("ed_built_comparisons", 0) + 1
+            if not (e1 and e2) or n1:
+                failures.append(C.fail(None, "an ed()-built %s (sequences given as %ss) does not equal %s (x==y %s, y==x %s, x!=y %s)" % (kind, seq.__name__, nm, e1, e2, n1), **wit))
+        try:
+            # in immutable form (its members are live copies): equal to its JSON reload
+            imm = x.toImmutable()
+            rl = Factory.fromJson(json.loads(json.dumps(x.toJson())))
+            if not (imm == rl and rl == imm):
+                failures.append(C.fail(None, "the immutable form of an ed()-built %s (%ss) does not equal its JSON reload" % (kind, seq.__name__), **wit))
+        except Exception as e:  # noqa: BLE001
+            failures.append(C.fail(None, "toImmutable / reload of an ed()-built %s (%ss) raised %s: %s" % (kind, seq.__name__, type(e).__name__, str(e)[:160]), **wit))
+    return {"digest": C.digest("ed", sp, stream), "nontrivial": True, "failures": failures[:4], "counters": dict(counters, equal_pairs=1), "sets": {"kinds": S.kinds_in(sp)}, "sample": {"kind": "ed()-built", "tree": S.describe(sp)}}
+
+
 def run_case(i, rng, tier):
     from histogrammar.defs import Factory
     import histogrammar.util as util
+
+    if i % 16 == 9:
+        return _ed_case(i, rng, tier)
 
     label, sp = C.pick_spec(i, rng, tier)
     stream = S.gen_stream(rng, sp, rng.randint(0, 10))
@@ -431,7 +474,7 @@ def run_case(i, rng, tier):
 
 def conclusive(agg):
     out = []
-    for c in ("clone:copy", "clone:pickle", "clone:immutable", "clone:rebuild", "built:stack", "built:fraction", "equal_pairs", "unequal_pairs", "comparisons:tolerance", "nodewise_negation_checked"):
+    for c in ("clone:copy", "clone:pickle", "clone:immutable", "clone:rebuild", "built:stack", "built:fraction", "equal_pairs", "unequal_pairs", "comparisons:tolerance", "nodewise_negation_checked", "ed_built_comparisons"):
         if not agg.counters.get(c):
             out.append("never exercised: " + c)
     miss = [k for k in S.ALL_KINDS if k not in agg.sets.get("kinds", ())]
